@@ -33,12 +33,36 @@ import (
 // error - what a real dial to an unreachable peer does.
 type unreachBus struct {
 	*Bus
+	// FailNext, if set, is asked for every envelope the victim publishes; when it returns a mode the
+	// publication does not happen: "fail" = Publish returns an error at once (the peer has just
+	// disconnected), "block" = Publish blocks until the caller's context ends and returns its error.
+	FailNext func(e *wire.Envelope) string
+	Failed   []string // what was made to fail
 }
 
+// victimBus is the wrapper of the running execution's victim (nil: the victim uses the plain bus).
+var victimBus *unreachBus
+
 func (b *unreachBus) Publish(ctx context.Context, e *wire.Envelope) error {
-	if _, served := b.Bus.subs[wire.Keys(e.Recipient)]; !served {
+	rec := func(to int) {
 		b.Bus.w.tick()
-		b.Bus.Sent = append(b.Bus.Sent, sentRec{b.Bus.w.partyOf(e.Sender), -1, fmt.Sprintf("%T", e.Msg), e.Msg, b.Bus.w.clock})
+		b.Bus.Sent = append(b.Bus.Sent, sentRec{b.Bus.w.partyOf(e.Sender), to, fmt.Sprintf("%T", e.Msg), e.Msg, b.Bus.w.clock})
+	}
+	if b.FailNext != nil {
+		switch b.FailNext(e) {
+		case "fail":
+			rec(-1)
+			b.Failed = append(b.Failed, fmt.Sprintf("%T", e.Msg))
+			return fmt.Errorf("harness bus: connection to the peer lost")
+		case "block":
+			rec(-1)
+			b.Failed = append(b.Failed, fmt.Sprintf("%T", e.Msg))
+			vsched.Recv(ctx.Done())
+			return ctx.Err()
+		}
+	}
+	if _, served := b.Bus.subs[wire.Keys(e.Recipient)]; !served {
+		rec(-1)
 		vsched.Recv(ctx.Done())
 		return ctx.Err()
 	}
@@ -59,7 +83,8 @@ func rewireVictim(w *World) {
 	if err != nil {
 		panic("harness: " + err.Error())
 	}
-	p.C, err = client.New(p.WireID, &unreachBus{w.Bus}, stubFunder{}, stubAdj{}, map[wallet.BackendID]wallet.Wallet{0: sw}, wt)
+	victimBus = &unreachBus{Bus: w.Bus}
+	p.C, err = client.New(p.WireID, victimBus, stubFunder{}, stubAdj{}, map[wallet.BackendID]wallet.Wallet{0: sw}, wt)
 	if err != nil {
 		panic("harness: " + err.Error())
 	}
@@ -310,6 +335,185 @@ func (sc *mScene) nonceRun(kind string) (bad []string) {
 		bad = append(bad, "two openings with different responder shares have the same channel id")
 	}
 	return bad
+}
+
+// ---------------------------------------------------------------- the victim's response cannot be delivered
+
+// undelivCase: the honest real M makes a request, the victim's handler answers it, and exactly one
+// publication of the victim (the answer, or its version-0 signature during an opening) fails.
+type undelivCase struct {
+	Name    string // "<request>-<decision>/<what fails>"
+	Request string // update | ledger | sub
+	Accept  bool   // the victim's handler accepts (else rejects)
+	Fails   string // type of the victim's publication that fails (its first one)
+	Pts     []string
+}
+
+var undelivCases = func() (out []undelivCase) {
+	add := func(req string, acc bool, fails, label string, pts ...string) {
+		dec := map[bool]string{true: "accept", false: "reject"}[acc]
+		out = append(out, undelivCase{Name: req + "-" + dec + "/" + label, Request: req, Accept: acc, Fails: fails, Pts: pts})
+	}
+	add("update", true, "*client.ChannelUpdateAccMsg", "acceptance", "open-v0", "open-v1", "sub-v1")
+	add("update", false, "*client.ChannelUpdateRejMsg", "rejection", "open-v0", "open-v1")
+	add("ledger", true, "*client.LedgerChannelProposalAccMsg", "acceptance", "nochan", "open-v1")
+	add("ledger", true, "*client.ChannelUpdateAccMsg", "initial-signature", "nochan", "open-v1")
+	add("ledger", false, "*client.ChannelProposalRejMsg", "rejection", "nochan", "open-v1")
+	add("sub", true, "*client.SubChannelProposalAccMsg", "acceptance", "open-v1", "sub-v1")
+	add("sub", true, "*client.ChannelUpdateAccMsg", "initial-signature", "open-v1")
+	add("sub", false, "*client.ChannelProposalRejMsg", "rejection", "open-v1")
+	return out
+}()
+
+func lookupUndeliv(name string) undelivCase {
+	for _, c := range undelivCases {
+		if c.Name == name {
+			return c
+		}
+	}
+	panic("harness: unknown undeliverable case " + name)
+}
+
+// undelivRun performs the honest request of M (10 s) with the failure armed; mode = fail | block.
+func (sc *mScene) undelivRun(c undelivCase, mode string) (mRes string, failed []string) {
+	V, M := sc.V, sc.M
+	if c.Accept {
+		V.OnProposal, V.OnUpdate = nil, nil
+	} else {
+		V.OnProposal, V.OnUpdate = rejectProposals, rejectUpdates
+	}
+	armed := true
+	victimBus.FailNext = func(e *wire.Envelope) string {
+		if armed && fmt.Sprintf("%T", e.Msg) == c.Fails {
+			armed = false
+			return mode
+		}
+		return ""
+	}
+	ctx, cancel := context.WithTimeout(context.Background(), 10*time.Second)
+	defer cancel()
+	var err error
+	switch c.Request {
+	case "update":
+		err = sc.mled.Update(ctx, pay(int(sc.mled.Idx()), 1, false))
+	case "ledger":
+		var p *client.LedgerChannelProposalMsg
+		if p, err = client.NewLedgerChannelProposal(60, M.Addr, mAlloc(sc.w.Asset, 5, 5),
+			[]map[wallet.BackendID]wire.Address{M.WireID, V.WireID}, M.nextNonce()); err == nil {
+			p.ProposalID = mFixedID(0xE8)
+			_, err = M.C.ProposeChannel(ctx, p)
+		}
+	case "sub":
+		var p *client.SubChannelProposalMsg
+		if p, err = client.NewSubChannelProposal(sc.mled.ID(), 60, mAlloc(sc.w.Asset, 1, 1), M.nextNonce()); err == nil {
+			p.ProposalID = mFixedID(0xE9)
+			_, err = M.C.ProposeChannel(ctx, p)
+		}
+	}
+	mRes = classify(err)
+	if strings.HasPrefix(mRes, "err:") {
+		mRes = "error"
+	}
+	return mRes, victimBus.Failed
+}
+
+// ---------------------------------------------------------------- hub, both ends of the virtual channel collude
+
+// hubPairSpec: matching funding proposals for a virtual channel M <-> B on the hub's two ledger
+// channels, both built by the harness (it signs with M's and with B's account).
+type hubPairSpec struct {
+	Init     *channel.State
+	SigsFrom func(sc *mScene, st *channel.State) []wallet.Sig
+}
+
+func (sc *mScene) hubPairParams() *channel.Params {
+	p, err := channel.NewParams(60, []map[wallet.BackendID]wallet.Address{sc.M.Addr, sc.B.Addr}, channel.NoApp(), big.NewInt(4712), false, true, channel.ZeroAux)
+	if err != nil {
+		panic("harness: " + err.Error())
+	}
+	return p
+}
+
+func (sc *mScene) signAs(acc wallet.Account, st *channel.State) wallet.Sig {
+	s, err := channel.Sign(acc, st, 0)
+	if err != nil {
+		return garbageSig()
+	}
+	return s
+}
+
+// hubPairEnvs builds the two funding proposals (M's on the channel M - hub, B's on the channel B - hub).
+func (sc *mScene) hubPairEnvs(mut func(init *channel.State), sigs func(init *channel.State) []wallet.Sig) []*wire.Envelope {
+	if sc.B == nil || sc.led == nil || sc.ledB == nil {
+		return nil
+	}
+	params := sc.hubPairParams()
+	init := &channel.State{ID: params.ID(), Version: 0, App: channel.NoApp(), Data: channel.NoData(), Allocation: *mAlloc(sc.w.Asset, 3, 2)}
+	if mut != nil {
+		mut(init)
+	}
+	var ss []wallet.Sig
+	if sigs != nil {
+		ss = sigs(init)
+	} else {
+		ss = []wallet.Sig{sc.signAs(sc.M.Acc, init), sc.signAs(sc.B.Acc, init)}
+	}
+	one := func(led *client.Channel, who *Party, im []channel.Index) *wire.Envelope {
+		st := sc.signed(led)
+		st.Version++
+		debit := mapBals(init.Balances, im, 2)
+		for p := range st.Balances[0] {
+			st.Balances[0][p].Sub(st.Balances[0][p], debit[0][p])
+		}
+		st.Locked = append(st.Locked, *channel.NewSubAlloc(params.ID(), init.Balances.Sum(), im))
+		upd := &client.ChannelUpdateMsg{ChannelUpdate: client.ChannelUpdate{State: st, ActorIdx: 0}, Sig: sc.signAs(who.Acc, st)}
+		return &wire.Envelope{Sender: who.WireID, Recipient: sc.V.WireID, Msg: &client.VirtualChannelFundingProposalMsg{ChannelUpdateMsg: *upd,
+			Initial: channel.SignedState{Params: params.Clone(), State: init.Clone(), Sigs: cloneSigs(ss)}, IndexMap: im}}
+	}
+	// M and B are index 0 of their ledger channels with the hub: Alice = M -> {0,1}, Bob = B -> {1,0}
+	return []*wire.Envelope{one(sc.led, sc.M, []channel.Index{0, 1}), one(sc.ledB, sc.B, []channel.Index{1, 0})}
+}
+
+// hubPairProbe: an update that names the virtual channel's id (no valid signature needed).
+func (sc *mScene) hubPairProbe(from mIdent) []*wire.Envelope {
+	if sc.B == nil {
+		return nil
+	}
+	st := &channel.State{ID: sc.hubPairParams().ID(), Version: 1, App: channel.NoApp(), Data: channel.NoData(), Allocation: *mAlloc(sc.w.Asset, 2, 3)}
+	return []*wire.Envelope{{Sender: from.Wire, Recipient: sc.V.WireID,
+		Msg: &client.ChannelUpdateMsg{ChannelUpdate: client.ChannelUpdate{State: st, ActorIdx: 1}, Sig: garbageSig()}}}
+}
+
+func hubPairCases() (out []mcase) {
+	add := func(name string, mut bool, envs func(sc *mScene) []*wire.Envelope) {
+		out = append(out, mcase{Name: "hubpair/" + name, Cat: "hubpair", Sender: "M", Mut: mut, Pts: []string{"hub-collude"}, Envs: envs,
+			Build: func(*mScene) wire.Msg { return nil }})
+	}
+	add("valid", false, func(sc *mScene) []*wire.Envelope { return sc.hubPairEnvs(nil, nil) })
+	// fully signed by both ends, passes the hub's validator, but is not the version-0 state the hub
+	// derives when it sets up its copy of the virtual channel
+	add("initial-version-1", true, func(sc *mScene) []*wire.Envelope {
+		return sc.hubPairEnvs(func(st *channel.State) { st.Version = 1 }, nil)
+	})
+	add("initial-final", true, func(sc *mScene) []*wire.Envelope {
+		return sc.hubPairEnvs(func(st *channel.State) { st.IsFinal = true }, nil)
+	})
+	// consistent but wrong signatures: both proposals carry the same signatures over ANOTHER state
+	add("initial-sigs-over-other-state", true, func(sc *mScene) []*wire.Envelope {
+		return sc.hubPairEnvs(nil, func(st *channel.State) []wallet.Sig {
+			o := st.Clone()
+			o.Version = 7
+			return []wallet.Sig{sc.signAs(sc.M.Acc, o), sc.signAs(sc.B.Acc, o)}
+		})
+	})
+	add("initial-sigs-swapped", true, func(sc *mScene) []*wire.Envelope {
+		return sc.hubPairEnvs(nil, func(st *channel.State) []wallet.Sig {
+			return []wallet.Sig{sc.signAs(sc.B.Acc, st), sc.signAs(sc.M.Acc, st)}
+		})
+	})
+	add("update-virtual-id-from-peer", true, func(sc *mScene) []*wire.Envelope { return sc.hubPairProbe(partyIdent(sc.M)) })
+	add("update-virtual-id-from-stranger", true, func(sc *mScene) []*wire.Envelope { return sc.hubPairProbe(sc.S) })
+	return out
 }
 
 var _ = persistence.NonPersistRestorer
